@@ -11,6 +11,7 @@
 -/
 import RtoscModel.Save.Spec
 import RtoscModel.Save.Apropos
+import RtoscModel.Save.Text
 import Driver.Common
 namespace Driver.SaveEngine
 open Rtosc Rtosc.Save
@@ -137,11 +138,20 @@ def parseApp (s : String) : Option App :=
     pure { name := name.toList, params := params, walk := walk, apropos := scanLookup tree }
   | _ => none
 
+/-- `tag~payload~tag~payload…` -/
+def parseTagged : List String → Option (List Val)
+  | [t, p] => (parseVal (t ++ p)).map fun v => [v]
+  | t :: p :: r => do
+    let v ← parseVal (t ++ p)
+    let vs ← parseTagged r
+    pure (v :: vs)
+  | _ => none
+
 def parseHist (s : String) : Option (List (Path × List Val)) :=
   if s = "-" then some [] else
   (splitC s ';').mapM fun m => match splitC m '~' with
     | [a, "-", ""] => some (a.toList, [])                       -- a message without arguments
-    | [a, t, p] => (parseVal (t ++ p)).map fun v => (a.toList, [v])
+    | a :: tps => (parseTagged tps).map fun vs => (a.toList, vs)  -- addr~tag~payload[~tag~payload…]
     | _ => none
 
 /-! ### canonical output -/
@@ -183,7 +193,7 @@ def normVal (app : App) (addr : Path) (v : Val) : Val :=
 def normLine (app : App) (l : Line) : Line :=
   match l.args with
   | .plain vs => ⟨l.addr, .plain (vs.map (normVal app l.addr))⟩
-  | .arr _ => l
+  | .arr vs => ⟨l.addr, .arr (vs.zipIdx.map fun (v, k) => normVal app (l.addr ++ natDigits k) v)⟩   -- rArrayOption
 
 /-- an array line shown with all elements of the array: the elements the file leaves out (they equal the
     default) are taken from the saved state — the property does not say how much of an array a line spells out -/
@@ -198,12 +208,19 @@ def padLine (app : App) (s : State) (l : Line) : Line :=
     | some (first, len) =>
       ⟨l.addr, .arr (vs ++ ((List.range len).drop vs.length).map fun k => mapArgVal (app.param (first + k)).kind (s (first + k)))⟩
 
-/-- Text stage of the unchanged library (known finding C12-K9): a float holding +infinity is printed
-    `inf (inf)`, which the scanner reads as the keyword of the 'I' argument followed by garbage: such a line does
-    not scan back.  -/
+/-- Text stage of the unchanged library (known finding C12-K9): a float holding +infinity or a NaN (sign bit
+    clear) is printed `inf (inf)` / `nan (nan)`, which the scanner reads as a keyword followed by garbage: such a
+    line does not scan back (`Rtosc.C12.scansBack`).  -/
 def scansBack (l : Line) : Bool :=
   let vs := match l.args with | .plain vs => vs | .arr vs => vs
-  vs.all fun v => match v with | .flt b => b != 0x7f800000 | _ => true
+  -- +infinity `inf (inf)` or a NaN without sign bit `nan (nan)`: exponent all ones, sign bit clear
+  (vs.all fun v => match v with | .flt b => !(decide (2139095040 ≤ b.toNat ∧ b.toNat < 2147483648)) | _ => true) &&
+  -- C12-K10: an array line that mixes enumeration symbols and ints (rArrayOption with an element that is no option's
+  -- index next to one that is) is a syntax error for the scanner (`Rtosc.C12.uniformArr`)
+  (match l.args with
+   | .plain _ => true
+   | .arr es => !((es.any fun v => match v with | .sym _ => true | _ => false) &&
+                  (es.any fun v => match v with | .int _ => true | _ => false)))
 
 def showLine (l : Line) : String :=
   String.ofList l.addr ++ ":" ++
@@ -212,7 +229,7 @@ def showLine (l : Line) : String :=
   | .arr vs => "[" ++ ";".intercalate (vs.map showVal) ++ "]"
 
 def showLines (app : App) (s : State) (ls : List Line) : String :=
-  joinOr (sortStrs (ls.map fun l => showLine (padLine app s (normLine app l)))) ","
+  joinOr (sortStrs (ls.map fun l => showLine (normLine app (padLine app s l)))) ","
 
 def showRes : LoadRes → String
   | .ok _ n => s!"R {n}"
@@ -346,12 +363,76 @@ def wfReport (app : App) : String :=
   s!"guards_anc={b01 (guardsAncB app)} preset_anc={b01 (presetAncB app)} dflt_storable={b01 (dfltStorableB app)} canon_ok={b01 (canonB app)} " ++
   s!"item_addr_nodup={b01 (itemAddrNodupB app)} array_ok={b01 ao.1} array_shape={b01 ao.2} MetaCovers={b01 (coversB app)} MetaRanked={b01 (rankedB app)}"
 
+/-! ### the saved state as the implementation dumped it -/
+
+/-- the state whose enabled view is the dump `addr=value,…` (7th token of the op line, appended by
+    tools/props/c12.py from the implementation's own output): the parameters the dump lists hold the listed
+    values, every other parameter (hidden in a disabled sub-tree) its fresh value.  The property is about the
+    state that was saved, however the callbacks (C14) brought it about. -/
+def stateOfDump (app : App) (o : String) : Option State :=
+  if o = "-" then some app.init else do
+    let ents ← (splitC o ',').mapM fun e => match splitC e '=' with
+      | [a, v] => (parseVal v).map fun x => (a.toList, x)
+      | _ => none
+    let vals : Array Val := (app.params.map fun p =>
+      match ents.find? (fun e => e.1 == p.addr) with
+      | some e => e.2
+      | none => p.canon).toArray
+    pure ⟨fun i => vals.getD i (app.param i).canon⟩
+
+/-! ### header damage: the two header lines as text, one blank-separated token replaced or deleted -/
+def splitB (c : UInt8) : List UInt8 → List (List UInt8)
+  | [] => [[]]
+  | x :: r =>
+    match splitB c r with
+    | [] => [[x]]
+    | h :: t => if x = c then [] :: h :: t else (x :: h) :: t
+
+def joinB (c : UInt8) : List (List UInt8) → List UInt8
+  | [] => []
+  | [t] => t
+  | t :: r => t ++ c :: joinB c r
+
+/-- what `load_from_file` makes of the damaged header (`Save/Text.lean`'s transcription of the two `sscanf`
+    calls, run on the text): `none` = rejected; else the fields it read and what stands between the header and the
+    first message (`none`: nothing; `some g`: a word `g`, read as a message of its own) -/
+def damagedHeader (app : App) (ln idx : Nat) (alt : Option (List UInt8)) (hasBody : Bool) :
+    Option (Option ((Nat × Nat × Nat) × Path × (Nat × Nat × Nat) × Option (List UInt8))) :=
+  let hl : List (List UInt8) := [Text.header1 (0, 3, 1), Text.header2 app.name (1, 2, 3), []]
+  match hl[ln]? with
+  | none => none
+  | some l =>
+    let tk := splitB 32 l
+    if idx ≥ tk.length then none else
+    let tk' := match alt with
+      | none => tk.eraseIdx idx
+      | some b => tk.set idx b
+    let hl' := hl.set ln (joinB 32 tk')
+    let stub : List UInt8 := if hasBody then [47] else []
+    let text := joinB 10 hl' ++ stub
+    some <| match Text.parseHeader text with
+    | none => none
+    | some (rv, name, av, rest) =>
+      let g := Libc.skipSpace rest
+      if g == stub then some (rv, Text.bytesPath name, av, none)
+      else
+        let w := (if hasBody then g.dropLast else g)
+        let w := (w.reverse.dropWhile Libc.isspace).reverse
+        some (rv, Text.bytesPath name, av, some w)
+
 def step (line : String) : String :=
   match words line with
   | mode :: _ :: desc :: hist :: x1 :: x2 :: _ =>
     match parseApp desc, parseHist hist with
     | some app, some h =>
-      let s := app.run h app.init
+      let sH := app.run h app.init
+      -- the saved state: the one the implementation dumped, when the op line carries it
+      let dump := (words line).getD 6 ""
+      let sD := if dump = "" then none else stateOfDump app dump
+      let s := sD.getD sH
+      let shownO := if dump = "" || sD.isNone then showFields app sH else dump
+      -- evidence only (removed by tools/props/c12.py): the dumped state is not the one the model's run of the history reaches
+      let hd := if sD.isSome && showFields app sH != dump then " HD 1" else ""
       let ver : Nat × Nat × Nat := (0, 0, 0)
       let lines0 := app.save s
       -- what the scanner gets back from the text: the lines in front of the first one that does not scan
@@ -369,11 +450,29 @@ def step (line : String) : String :=
       else
       if mode = "sl" then
         let r := app.loadFile fileT app.init
-        s!"O {showFields app s} S {showLines app s lines} H {if allScan then 1 else 0} {showResF app r}"
+        s!"O {shownO} S {showLines app s lines} H {if allScan then 1 else 0} {showResF app r}{hd}"
       else if mode = "bad" then
         let n := lines.length
         let f : Option File :=
-          if x1 = "magic" || x1 = "tok" then some { fileT with magic := false }
+          if x1 = "magic" then some { fileT with magic := false }
+          else if x1 = "tok" then
+            match splitC x2 ':' with
+            | [a, b, c] =>
+              match a.toNat?, b.toNat?, (if c = "-" then some none else (hexToBytes c).map some) with
+              | some ln, some idx, some alt =>
+                match damagedHeader app ln idx alt (!fileT.body.isEmpty) with
+                | none => none
+                | some none => some { fileT with magic := false }
+                | some (some (rv, name, av, none)) => some { fileT with rtoscVer := rv, appName := name, appVer := av }
+                | some (some (rv, name, av, some g)) =>
+                  -- a word between the header and the first message: a comment swallows the rest of its line, an
+                  -- address is a message without arguments, anything else does not parse
+                  let extra : Option Line :=
+                    if g.head? == some 47 && !g.any Libc.isspace then some ⟨Text.bytesPath g, .plain []⟩ else none
+                  if g.head? == some 37 then some { fileT with rtoscVer := rv, appName := name, appVer := av }
+                  else some { fileT with rtoscVer := rv, appName := name, appVer := av, body := extra :: fileT.body }
+              | _, _, _ => none
+            | _ => none
           else if x1 = "rver" then
             match (splitC x2 '.').map String.toNat? with
             | [some a, some b, some c] => some { fileT with rtoscVer := (a, b, c) }
@@ -393,13 +492,15 @@ def step (line : String) : String :=
               match ks.toNat?, parseHist m with
               | some k, some [(a, vs)] =>
                 let k := k % (n + 1)
-                some { file with body := file.body.take k ++ [some ⟨a, .plain vs⟩] ++ file.body.drop k }
+                -- (an inserted line holding +infinity / NaN is printed as a word that does not scan)
+                let ins : Line := ⟨a, .plain vs⟩
+                some { file with body := file.body.take k ++ [if scansBack ins then some ins else none] ++ file.body.drop k }
               | _, _ => none
             | _ => none
           else none
         match f with
         | none => "bad-op"
-        | some f => showResF app (app.loadFile f app.init)
+        | some f => s!"O {shownO} " ++ showResF app (app.loadFile f app.init) ++ hd
       else if mode = "perm" then
         let n := lines.length
         -- (the file of a `perm` case has two good header lines and scannable messages: `loadFile` is `load`)
